@@ -83,15 +83,7 @@ func (mp MultiPolygon) Centroid() Point {
 			// The sums below carry the sign of the ring's winding
 			// direction, so they are normalized by the signed area.
 			sa := signedarea(r)
-			cx, cy := 0., 0.
-			for i := 0; i < len(r)-1; i++ {
-				cx += (r[i].X + r[i+1].X) *
-					(r[i].X*r[i+1].Y - r[i+1].X*r[i].Y)
-				cy += (r[i].Y + r[i+1].Y) *
-					(r[i].X*r[i+1].Y - r[i+1].X*r[i].Y)
-			}
-			cx /= 6 * sa
-			cy /= 6 * sa
+			cx, cy := ringCentroid(r, sa)
 			A += a
 			xA += cx * a
 			yA += cy * a
